@@ -371,3 +371,70 @@ def value_programs(tier, seed):
     t = "states(x=1.0, y=2.0)\nu = x*y\ndx_dt = -x + u\ndy_dt = -y*u + 0.5\n"
     P.append({"family": "NOPARAM", "id": text_id(t), "text": t, "meta": {}})
     return P
+
+
+# ---------------------------------------------------------------- componentise
+def _top_split(s):
+    out, depth, cur = [], 0, ""
+    for ch in s:
+        if ch in "([":
+            depth += 1
+        elif ch in ")]":
+            depth -= 1
+        if ch == "," and depth == 0:
+            out.append(cur.strip())
+            cur = ""
+        else:
+            cur += ch
+    if cur.strip():
+        out.append(cur.strip())
+    return out
+
+
+def componentise(text, k=2, seed=0):
+    """Distribute the declarations of a single-component program (one-line parameters(...) / states(...) headers,
+    one assignment per line) over k components; a state and its derivative stay together (the language requires it).
+    Returns None when the text does not have that simple shape."""
+    import hashlib
+    import re
+    params, states, lines = [], [], []
+    for ln in text.strip().split("\n"):
+        t = ln.strip()
+        if not t or t.startswith("#"):
+            continue
+        m = re.match(r"^(parameters|states)\((.*)\)$", t)
+        if m:
+            if m.group(2).lstrip().startswith('"'):
+                return None
+            (params if m.group(1) == "parameters" else states).extend(_top_split(m.group(2)))
+            continue
+        m = re.match(r"^(\w+)\s*=\s*(.+)$", t)
+        if not m or t.startswith(("expressions", "component")):
+            return None
+        lines.append((m.group(1), t))
+    if not states:
+        return None
+
+    def h(name):
+        return int(hashlib.sha1(f"{seed}:{name}".encode()).hexdigest(), 16)
+
+    names = [f"C{j}" for j in range(k)]
+    snames = [d.split("=")[0].strip() for d in states]
+    comp_of = {}
+    for j, sn in enumerate(snames):
+        comp_of[sn] = names[(j + seed) % k]
+        comp_of[f"d{sn}_dt"] = comp_of[sn]
+    out = []
+    for c in names:
+        ps = [d for d in params if names[h(d.split("=")[0].strip()) % k] == c]
+        ss = [d for d in states if comp_of[d.split("=")[0].strip()] == c]
+        if ps:
+            out.append(f'parameters("{c}", ' + ", ".join(ps) + ")")
+        if ss:
+            out.append(f'states("{c}", ' + ", ".join(ss) + ")")
+    for c in names:
+        body = [t for n, t in lines if comp_of.get(n, names[h(n) % k]) == c]
+        if body:
+            out.append(f'expressions("{c}")')
+            out.extend(body)
+    return "\n".join(out) + "\n"
